@@ -3,10 +3,12 @@ from props_common import COMMON_TRUSTED
 CONFIG = {
     # ctx: the reused auth checker of state resolution over providers that gain / lose their create, power-levels and
     # join-rules events between checks (a Go panic in any step is a violation; seeded change C18-r4m1)
-    "areas": ["fuzz", "auth", "stateres", "sign", "ctx"],
+    "areas": ["fuzz", "auth", "stateres", "sign", "ctx", "resolve"],
     # of the state-resolution area only the ops over possibly CYCLIC auth graphs (room versions 1-2; run in a child process so that a
     # fatal stack overflow / a hang is an outcome): every other stateres op belongs to C10 / C11
-    "op_filter": {"stateres": ["stateres.resolve_cyc", "stateres.resolve_old_cyc"], "sign": ["sign.deep_verify", "sign.deep_sign"], "ctx": ["ctx.seq"]},
+    "op_filter": {"stateres": ["stateres.resolve_cyc", "stateres.resolve_old_cyc"], "sign": ["sign.deep_verify", "sign.deep_sign"], "ctx": ["ctx.seq"],
+                  # resolve: server names from identifiers and from hostile well-known documents through ResolveServer (a panic is a violation; seed C18-r5m2)
+                  "resolve": ["resolve.resolve", "resolve.validate", "resolve.resolve_after"]},
     "lean": ["VProps.C18", "VProps.C02", "VProps.C06", "VProps.C07", "VProps.C14", "VProps.C17"],
     "sources": ["VProps/C18.lean", "VModel/Json.lean", "VModel/Auth.lean", "VModel/Event.lean", "VProps/C02.lean", "VProps/C06.lean", "VProps/C07.lean", "VProps/C14.lean", "VProps/C17.lean",
                 # accessors of the three event structs and state resolution with explicit panic sites (inventory: lean/VModel/PanicSites.md)
